@@ -906,6 +906,7 @@ func runC06(c *an.Ctx) {
 	impls := p.XBImplementers(ck, splitterI)
 	c.Min("Splitter implementers in package chunker", len(impls), 1)
 	readFull := an.M("io", "", "ReadFull")
+	pkgGraph := an.XBLocalGraph(p.PkgFuncs(ck))
 	nReaders, nShort, nCarry := 0, 0, 0
 	for _, T := range impls {
 		var methods []*ssa.Function
@@ -1013,7 +1014,14 @@ func runC06(c *an.Ctx) {
 					return (r.Op == token.NEQ && k == 0) || (r.Op == token.GTR && k >= 0) || (r.Op == token.GEQ && k >= 1)
 				})
 				for _, ret := range an.Returns(fn) {
-					if len(ret.Results) != 2 || !an.IsNilConst(ret.Results[1]) || an.IsNilConst(ret.Results[0]) {
+					// success returns: nil error as the last result. (chunk, nil) with a non-nil chunk; for a reading
+					// helper that hands more than the chunk to its caller (count, chunk, flag, nil) every nil-error return
+					// counts: the caller continues chunking on it.
+					nres := len(ret.Results)
+					if nres < 2 || !an.IsErrorType(ret.Results[nres-1].Type()) || !an.IsNilConst(ret.Results[nres-1]) {
+						continue
+					}
+					if nres == 2 && an.IsNilConst(ret.Results[0]) {
 						continue
 					}
 					if !an.Reaches(fn, rd, ret, nil, nil) {
@@ -1038,111 +1046,198 @@ func runC06(c *an.Ctx) {
 						"a chunk is returned with a nil error after a failed io.ReadFull on a path where neither err==io.ErrUnexpectedEOF nor a non-zero byte count is established: an empty chunk (or (nil,nil)) can be emitted at end of input")
 				}
 			}
-			// O5: carry-over (only for splitters that keep bytes between calls: a builtin copy into the buffer field)
-			for _, ret := range an.Returns(fn) {
-				if len(ret.Results) != 2 || !an.IsNilConst(ret.Results[1]) {
-					continue
+		}
+		// O5: carry-over (only for splitters that keep bytes between calls: a builtin copy within the buffer field).
+		// Anchored on the function that contains the copy; its bounds are followed through parameters to the call
+		// sites and through results of package-local helpers to the source read.
+		{
+			inT := map[*ssa.Function]bool{}
+			for _, m := range methods {
+				inT[m] = true
+			}
+			sitesOf := func(g *ssa.Function) []ssa.CallInstruction {
+				var out []ssa.CallInstruction
+				for _, k := range pkgGraph.Callers[g] {
+					if k.Parent() != g && inT[k.Parent()] {
+						out = append(out, k)
+					}
 				}
-				ms, ok := ret.Results[0].(*ssa.MakeSlice)
+				return out
+			}
+			paramIdx := func(v ssa.Value) int {
+				q, ok := v.(*ssa.Parameter)
 				if !ok {
-					continue
+					return -1
 				}
-				// copies whose source is a re-slice of the buffer field: in this method, or in a package-local helper it
-				// calls with the bounds as arguments
-				type carry struct {
-					cv        *ssa.Call       // the copy
-					at        ssa.Instruction // its position in fn (the copy itself or the call of the helper)
-					low, high ssa.Value       // bounds as values of fn
-					home      *ssa.Function   // function containing the copy
-				}
-				var carries []carry
-				carryIn := func(g *ssa.Function) []*ssa.Call {
-					var out []*ssa.Call
-					for _, call := range an.Calls(g, an.M("builtin", "", "copy")) {
-						cv, ok := call.(*ssa.Call)
-						if !ok {
-							continue
-						}
-						src, ok := cv.Call.Args[1].(*ssa.Slice)
-						if !ok || src.Low == nil {
-							continue
-						}
-						dstF, _ := an.FieldOf(c06LoadAddr(cv.Call.Args[0]))
-						srcF, _ := an.FieldOf(c06LoadAddr(src.X))
-						if dstF == nil || dstF != srcF {
-							continue
-						}
-						out = append(out, cv)
+				for i, x := range q.Parent().Params {
+					if x == q {
+						return i
 					}
-					return out
 				}
-				for _, cv := range carryIn(fn) {
-					src := cv.Call.Args[1].(*ssa.Slice)
-					carries = append(carries, carry{cv, cv, src.Low, src.High, fn})
+				return -1
+			}
+			// readCount: v is the byte count of a read of the source through io.ReadFull
+			var readCount func(v ssa.Value, d int) bool
+			readCount = func(v ssa.Value, d int) bool {
+				if v == nil || d > 4 {
+					return false
 				}
-				for _, k := range an.AllCalls(fn) {
-					g := c06LocalCallee(fn, k)
-					if g == nil {
-						continue
+				if ex, ok := v.(*ssa.Extract); ok && ex.Index == 0 {
+					if call, ok := ex.Tuple.(*ssa.Call); ok {
+						if readFull.Match(an.Callee(call)) {
+							return true
+						}
 					}
-					for _, cv := range carryIn(g) {
-						src := cv.Call.Args[1].(*ssa.Slice)
-						mapArg := func(v ssa.Value) ssa.Value {
-							for i, q := range g.Params {
-								if ssa.Value(q) == v && i < len(k.Common().Args) {
-									return k.Common().Args[i]
+				}
+				if ex, ok := v.(*ssa.Extract); ok {
+					if call, ok := ex.Tuple.(*ssa.Call); ok {
+						if g := an.Callee(call).Static; g != nil && inT[g] {
+							rs := an.Returns(g)
+							for _, r := range rs {
+								if ex.Index >= len(r.Results) || !readCount(r.Results[ex.Index], d+1) {
+									return false
 								}
 							}
-							return nil
+							return len(rs) > 0
 						}
-						carries = append(carries, carry{cv, k, mapArg(src.Low), mapArg(src.High), g})
 					}
 				}
-				for _, cr := range carries {
-					cv := cr.cv
-					if !an.Dominates(ms, cr.at) || !an.Reaches(fn, cr.at, ret, nil, nil) {
+				if call, ok := v.(*ssa.Call); ok {
+					if g := an.Callee(call).Static; g != nil && inT[g] {
+						rs := an.Returns(g)
+						for _, r := range rs {
+							if len(r.Results) != 1 || !readCount(r.Results[0], d+1) {
+								return false
+							}
+						}
+						return len(rs) > 0
+					}
+				}
+				if ph, ok := v.(*ssa.Phi); ok {
+					for _, e := range ph.Edges {
+						if !readCount(e, d+1) {
+							return false
+						}
+					}
+					return true
+				}
+				if i := paramIdx(v); i >= 0 {
+					ks := sitesOf(v.(*ssa.Parameter).Parent())
+					for _, k := range ks {
+						if k.Common().IsInvoke() || i >= len(k.Common().Args) || !readCount(k.Common().Args[i], d+1) {
+							return false
+						}
+					}
+					return len(ks) > 0
+				}
+				return false
+			}
+			// chunkEndsAt: at site (in h) the chunk handed out is a fresh slice of length v: make([]byte, v) that
+			// precedes the site and is returned by h; a parameter is followed to the call sites of h
+			var chunkEndsAt func(h *ssa.Function, at ssa.Instruction, v ssa.Value, d int) bool
+			chunkEndsAt = func(h *ssa.Function, at ssa.Instruction, v ssa.Value, d int) bool {
+				if v == nil || d > 3 {
+					return false
+				}
+				found := false
+				an.Instrs(h, func(in ssa.Instruction) {
+					ms, ok := in.(*ssa.MakeSlice)
+					if !ok || ms.Len != v || !an.Dominates(ms, at) {
+						return
+					}
+					for _, ret := range an.Returns(h) {
+						for _, r := range ret.Results {
+							if r == ssa.Value(ms) && an.Reaches(h, at, ret, nil, nil) {
+								found = true
+							}
+						}
+					}
+				})
+				if found {
+					return true
+				}
+				if i := paramIdx(v); i >= 0 {
+					ks := sitesOf(h)
+					for _, k := range ks {
+						if k.Common().IsInvoke() || i >= len(k.Common().Args) || !chunkEndsAt(k.Parent(), k, k.Common().Args[i], d+1) {
+							return false
+						}
+					}
+					return len(ks) > 0
+				}
+				return false
+			}
+			// the carried-count field: the unique int field of the splitter type
+			var fN *types.Var
+			if st, ok := T.Underlying().(*types.Struct); ok {
+				nInt := 0
+				for i := 0; i < st.NumFields(); i++ {
+					if b, ok := st.Field(i).Type().Underlying().(*types.Basic); ok && b.Kind() == types.Int {
+						fN = st.Field(i)
+						nInt++
+					}
+				}
+				if nInt != 1 {
+					fN = nil
+				}
+			}
+			for _, home := range methods {
+				for _, call := range an.Calls(home, an.M("builtin", "", "copy")) {
+					cv, ok := call.(*ssa.Call)
+					if !ok {
+						continue
+					}
+					src, ok := cv.Call.Args[1].(*ssa.Slice)
+					if !ok || src.Low == nil {
+						continue
+					}
+					dstF, _ := an.FieldOf(c06LoadAddr(cv.Call.Args[0]))
+					srcF, _ := an.FieldOf(c06LoadAddr(src.X))
+					if dstF == nil || dstF != srcF {
 						continue
 					}
 					nCarry++
-					c.Check(cr.low != nil && cr.low == ms.Len, "O5", "R-FLOW", an.FuncName(fn), "carry-over-starts-at-chunk-end", cv.Pos(),
+					c.Check(chunkEndsAt(home, cv, src.Low, 0), "O5", "R-FLOW", an.FuncName(home), "carry-over-starts-at-chunk-end", cv.Pos(),
 						"bytes kept for the next call start at the index where the returned chunk ends",
-						"the carry-over copy starts at "+an.PathOf(cr.low)+" but the returned chunk has length "+an.PathOf(ms.Len)+": bytes are lost or duplicated between consecutive chunks")
+						"the carry-over copy starts at "+an.PathOf(src.Low)+" which is not the length of the freshly allocated chunk that is returned: bytes are lost or duplicated between consecutive chunks")
 					// high bound = bytes buffered = previous carry + bytes read
-					okHigh := false
-					if hb, ok := cr.high.(*ssa.BinOp); ok && hb.Op == token.ADD {
-						for _, rd := range rf {
-							for _, n := range an.Result(rd, 0) {
-								if hb.X == n || hb.Y == n {
-									okHigh = true
+					isCarried := func(v ssa.Value) bool {
+						if fN == nil {
+							return true
+						}
+						f, _ := an.FieldOf(c06LoadAddr(v))
+						return f == fN
+					}
+					var buffered func(v ssa.Value, d int) bool
+					buffered = func(v ssa.Value, d int) bool {
+						if v == nil || d > 3 {
+							return false
+						}
+						if hb, ok := v.(*ssa.BinOp); ok && hb.Op == token.ADD {
+							return (readCount(hb.X, 0) && isCarried(hb.Y)) || (readCount(hb.Y, 0) && isCarried(hb.X))
+						}
+						if i := paramIdx(v); i >= 0 {
+							ks := sitesOf(v.(*ssa.Parameter).Parent())
+							for _, k := range ks {
+								if k.Common().IsInvoke() || i >= len(k.Common().Args) || !buffered(k.Common().Args[i], d+1) {
+									return false
 								}
 							}
+							return len(ks) > 0
 						}
+						return false
 					}
-					c.Check(okHigh, "O5", "R-FLOW", an.FuncName(fn), "carry-over-ends-at-buffered", cv.Pos(),
+					okHigh := buffered(src.High, 0)
+					c.Check(okHigh, "O5", "R-FLOW", an.FuncName(home), "carry-over-ends-at-buffered", cv.Pos(),
 						"carry-over ends at carried+read bytes", "the carry-over copy does not end at (carried + bytes read): trailing bytes are dropped or stale bytes re-emitted")
-					// the count of carried bytes is the result of that copy
-					// the carried-count field: the unique int field of the splitter type
-					var fN *types.Var
-					if st, ok := T.Underlying().(*types.Struct); ok {
-						nInt := 0
-						for i := 0; i < st.NumFields(); i++ {
-							if b, ok := st.Field(i).Type().Underlying().(*types.Basic); ok && b.Kind() == types.Int {
-								fN = st.Field(i)
-								nInt++
-							}
-						}
-						if nInt != 1 {
-							fN = nil
-						}
-					}
 					if fN != nil {
 						stored := false
-						for _, st := range an.FieldStores(cr.home, fN) {
+						for _, st := range an.FieldStores(home, fN) {
 							if st.Val == ssa.Value(cv) {
 								stored = true
 							}
 						}
-						c.Check(stored, "O5", "R-FLOW", an.FuncName(fn), "carried-count=copy-result", cv.Pos(),
+						c.Check(stored, "O5", "R-FLOW", an.FuncName(home), "carried-count=copy-result", cv.Pos(),
 							"number of carried bytes is the result of the carry-over copy", "the carried byte count is not the result of the carry-over copy")
 					}
 				}
